@@ -3,8 +3,10 @@ import MTfitVerif.Model.Convert
 import MTfitVerif.Real.Inst
 import MTfitVerif.Real.ConvertLemmasSdr
 /-
-  Helper lemmas for C20D part B (`Props/C20Sdr.lean`): the branches of the compiled `cN_SDR` that cannot fire over ℝ, its
-  strike wrap against `mod2pi`, and the equality of the two rake forms of the Python `FP_SDR`.
+  Helper lemmas for C20D part B (`Props/C20Sdr.lean`): the branches of the compiled `cN_SDR` that cannot fire over ℝ and its
+  strike wrap against `mod2pi`; further, the equality of the two rake forms of `FP_SDR` / `cN_SDR` for perpendicular unit
+  vectors on non-horizontal planes and the sine of the dip (not needed for the agreement theorems now that the kernel has both
+  forms, kept as facts about them).
 -/
 namespace MTfitVerif.PyxSdr
 open MTfitVerif MTfitVerif.Convert Real MTfitVerif.ConvertSdr
